@@ -140,6 +140,16 @@ impl Check for C01 {
         };
         let model = case.model();
         if large {
+            if d.chance(64) && !add_patterns {
+                let (rx, input) = gen::gen_long_token(d);
+                let mut tt = 41;
+                while case.modes[0].pats.iter().any(|p| p.tt == tt) {
+                    tt += 1;
+                }
+                case.modes[0].pats.insert(0, PatSpec { rx, tt, la: None });
+                case.inputs.push(input);
+                return case;
+            }
             for _ in 0..2 {
                 case.inputs.push(gen::gen_long_input(d, &model, 40, 300));
             }
